@@ -757,6 +757,16 @@ C("_reset_internal", arg_types={**SELF, "clear_packet_queue": T.Bool}, props=("C
   ],
   effects=set(), modular=False)
 
+# the public reset (also the end of an abandoned transaction): a fresh idle handler whose ready counter still matches its queue
+C("reset", arg_types=SELF, props=("C11", "C10"), result=None,
+  requires=REQ_INV, modifies=["self._params", "self.states.state", "self.states.step", "self._pdus_to_be_sent"],
+  ensures=[
+      Clause("C11.dest.public_reset_gives_a_fresh_idle_handler", lambda o, n, r: And_(
+          eq(n.self.states.state, IDLE), eq(n.self.states.step, STEP.IDLE), fresh_params(n.self._params, o.self._params),
+          to_z3_int(n.self.states._num_packets_ready) == n.self._pdus_to_be_sent.length()), ("C11", "C10")),
+  ] + inv_clauses(("C11", "C10")),
+  effects=set(), modular=False)
+
 
 # the constructor establishes the invariant and the fresh state (so that "for every history" starts from a proved base case)
 from cfdppy.mib import LocalEntityCfg as _LEC, RemoteEntityCfgTable as _RCT, CheckTimerProvider as _CTP  # noqa: E402
@@ -1518,7 +1528,7 @@ def _deferred(h):
 
 
 C("_handle_waiting_for_missing_metadata", arg_types={**SELF, "packet_holder": T.Obj(_PH)}, setup=_dest_holder_setup,
-  props=("C03", "C04", "C06", "C10"), result=None,
+  props=("C03", "C04", "C06", "C10", "C14"), result=None,
   requires=REQ_INV + REQ_TRK + DEFAULT + [("waiting_for_metadata", _wmm_pre),
             ("names_together", lambda o: (_hp(o).dest_file_name is None) == (_hp(o).source_file_name is None) if _hp_is(o, MetadataPdu) else True),
             # (part of the step invariant) what is known of the extent so far is covered by the progress
@@ -1553,7 +1563,9 @@ C("_handle_waiting_for_missing_metadata", arg_types={**SELF, "packet_holder": T.
       # F13: File Data arriving here after the EOF PDU (ranges already tracked) breaks the bookkeeping: excluded by the
       # precondition `extent_not_tracked`; without an EOF so far the invariants are kept
       Clause("inv.tracker", lambda o, n, r: Implies_(ne(n.self.states.state, IDLE), tracker_inv(n.self)), ("C10", "C06")),
-      Clause("inv.step", lambda o, n, r: Implies_(ne(n.self.states.state, IDLE), step_inv(n.self)), ("C10", "C03")),
+      # (C14: the step invariant says that a cancellation declared in this call - filestore rejection of the late Metadata PDU, File
+      #  Size Error - is still in effect when the call returns)
+      Clause("inv.step", lambda o, n, r: Implies_(ne(n.self.states.state, IDLE), step_inv(n.self)), ("C10", "C03", "C14")),
       Clause("C03.metadata_ends_the_wait", lambda o, n, r: (
           Implies_(ne(n.self.states.state, IDLE), And_(Not_(B(_ap(n.self).metadata_missing)), Not_(step_is(n.self, STEP.WAITING_FOR_METADATA))))
           if _hp_is(o, MetadataPdu) else True), ("C03", "C02")),
@@ -1574,6 +1586,7 @@ SD_MOD = sorted(set(DL_MOD + ["self._params.acked_params.lost_seg_tracker.lost_s
 def _sd_pre(o):
     h = o.self
     return And_(_busy_acked(o), step_is(h, STEP.SENDING_EOF_ACK_PDU), Not_(isnone(h._params.fp.file_size_eof)),
+                ne(h._params.completion_disposition, CANCELED),   # (F22: never started for a cancelled transaction)
                 opt(h._params.fp.file_size_eof, lambda s: And_(s >= 0, s >= _ap(h).last_end_offset), False), nak_cfg_valid(h),
                 Or_(_ck_trivial(o), Not_(isnone(h._params.fp.crc32))))
 
@@ -1827,8 +1840,9 @@ def step_inv(h):
             Implies_(Not_(B(ap.deferred_lost_segment_detection_active)), And_(isnone(fp.file_size_eof), ap.last_end_offset <= fp.progress)),
             Implies_(B(ap.deferred_lost_segment_detection_active), opt(fp.file_size_eof, lambda s: And_(
                 ap.last_end_offset == s, fp.progress == s), False)))),
+        # (C14: a declared cancellation stays effective - a cancelled transaction is never waiting for more data)
         Implies_(step_is(h, STEP.WAITING_FOR_MISSING_DATA), And_(eq(m, ACK), B(ap.deferred_lost_segment_detection_active),
-                                                                   Not_(B(ap.metadata_missing)))),
+                                                                   Not_(B(ap.metadata_missing)), ne(p.completion_disposition, CANCELED))),
         Implies_(step_is(h, STEP.RECEIVING_FILE_DATA, STEP.RECV_FILE_DATA_WITH_CHECK_LIMIT_HANDLING), Not_(B(ap.metadata_missing))),
         Implies_(step_is(h, STEP.SENDING_EOF_ACK_PDU), And_(
             eq(m, ACK), opt(fp.file_size_eof, lambda s: s >= 0, False))),
